@@ -186,3 +186,77 @@ class ValidateUnions(Contract):
 
 CONTRACTS = [ValidateAggregator(), ValidateRootTypes(), ValidateScalarsImplemented(), ValidateUnions()]
 LEMMAS = []
+
+
+# ---- directive implementations: every documented hook a directive implements must be awaitable (docs/api/directive.md lists the hooks)
+FUNCTION_HOOKS = ['on_post_bake', 'on_pre_output_coercion', 'on_introspection', 'on_post_input_coercion', 'on_argument_execution', 'on_field_execution',
+                  'on_field_collection', 'on_fragment_spread_collection', 'on_inline_fragment_collection', 'on_schema_execution']
+GENERATOR_HOOKS = ['on_schema_subscription']
+HookOf = z3.Function('DirectiveHookAttribute', V, V, V)         # getattr(implementation, hook name, None)
+IsCoro = z3.Function('IsCoroutineFunction', V, BoolS)           # is_valid_coroutine (inspect: external)
+IsAsyncGen = z3.Function('IsAsyncGeneratorFunction', V, BoolS)  # is_valid_async_generator
+
+
+def directive_ok(d):
+    impl = attr0(d, 'implementation')
+    return z3.And(*[z3.Implies(py_truthy(HookOf(impl, S(h))), IsCoro(HookOf(impl, S(h)))) for h in FUNCTION_HOOKS],
+                  *[z3.Implies(py_truthy(HookOf(impl, S(h))), IsAsyncGen(HookOf(impl, S(h)))) for h in GENERATOR_HOOKS])
+
+
+DirsOk = z3.RecFunction('DirectiveImplementationsOkUpTo', VL, IntS, BoolS)
+_dirsok = lambda dl, k: z3.If(k <= 0, True, z3.And(DirsOk(dl, k - 1), directive_ok(V.snd(nth(dl, k - 1)))))
+z3.RecAddDefinition(DirsOk, [_tl, _k], _dirsok(_tl, _k))
+UNFOLD['DirectiveImplementationsOkUpTo'] = _dirsok
+def _hooks_are_attributes(d):
+    impl = attr0(d, 'implementation')
+    hs = [HookOf(impl, S(h)) for h in FUNCTION_HOOKS + GENERATOR_HOOKS]
+    return z3.And(*[z3.Or(h == V.None_, V.is_Fun(h)) for h in hs])       # a class attribute that is a function / method, or the None default
+
+
+AllDirectiveDefs = ForallList('directive_definition_entry', lambda p: z3.And(V.is_Pair(p), exact(V.snd(p), 'GraphQLDirective'), V.oref(V.snd(p)) >= 0, V.is_Str(attr0(V.snd(p), 'name')),
+                                                                             _hooks_are_attributes(V.snd(p))))
+
+
+class ValidateDirectiveImplementation(Contract):
+    """_validate_directive_implementation: reports iff some registered directive implements one of the documented hooks with something that is not
+    awaitable (function hooks) / not an async generator (on_schema_subscription)"""
+    key = S_ + '_validate_directive_implementation'
+    property_ids = ('C12', 'C13')
+    params = ['self']
+    self_class = 'GraphQLSchema'
+    unroll_limit = 16
+    merge_ifs = 'always'        # one path through the eleven hook tests
+    callee_models = {'tartiflette/utils/callables.py::is_valid_coroutine': lambda en, st, a, kw: [(st, V.Bool(IsCoro(en.read(a[0], st))))],
+                     'tartiflette/utils/callables.py::is_valid_async_generator': lambda en, st, a, kw: [(st, V.Bool(IsAsyncGen(en.read(a[0], st))))]}
+
+    def args(self, en, names):
+        self.A = super().args(en, names)
+        return self.A
+
+    def pre(self, A, st):
+        s = A['self']
+        return [('schema', z3.And(exact(s, 'GraphQLSchema'), V.oref(s) >= 0, V.is_Dict(attr0(s, '_directive_definitions')), AllDirectiveDefs(V.ditems(attr0(s, '_directive_definitions')))))]
+
+    def extra_env(self, en, A):
+        def getattr3(en, st, a, kw):
+            if len(a) != 3:
+                return None
+            return [(st, HookOf(en.read(a[0], st), en.read(a[1], st)))]
+        return {'getattr': PyFunc('getattr', getattr3)}
+
+    def _inv(self, en, st, k, st0):
+        errors = V.items(en.read(st.env['errors'], st))
+        return {'errors_iff_bad_implementation_so_far': VL.is_nil(errors) == DirsOk(V.ditems(attr0(self.A['self'], '_directive_definitions')), k)}
+
+    @property
+    def loops(self):
+        return {0: LoopContract(self._inv)}
+
+    def post(self, A, st0, out):
+        if out.kind == 'raise':
+            return never_raises(out)
+        dl = V.ditems(attr0(A['self'], '_directive_definitions'))
+        return [('reports_iff_some_documented_hook_is_not_awaitable', z3.And(V.is_List(out.value), VL.is_nil(V.items(out.value)) == DirsOk(dl, length(dl))))]
+
+
+CONTRACTS.append(ValidateDirectiveImplementation())
